@@ -1252,10 +1252,9 @@ impl OverlayFs {
                 delete_whiteout = true;
             }
 
-            // Set opaque if child dir has lower layers.
-            if !n.upper_layer_only() {
-                set_opaque = true;
-            }
+            // The whiteout hides an entry of a lower layer: the directory replacing it must be
+            // opaque, otherwise that entry's content shows up again once the whiteout is gone.
+            set_opaque = true;
         }
 
         // Copy parent node up if necessary.
